@@ -281,6 +281,22 @@ impl World {
         attrs[i] = [Attr::None, Attr::Json, Attr::Text, Attr::Bytes][pick("attr", 4)];
       }
     }
+    // same-attribute proviso on *final* targets: all specifiers that lead
+    // (through loader redirects) to one entry share one attribute, and none
+    // if that entry is a root
+    {
+      let fin = |mut i: usize| {
+        for _ in 0..o.n_specs + 1 {
+          if kinds[i] == Kind::Redirect { i = redirect_to[i]; } else { break; }
+        }
+        i
+      };
+      for j in 0..o.n_specs {
+        let f = fin(j);
+        let leader = (0..o.n_specs).find(|k| fin(*k) == f).unwrap();
+        attrs[j] = if f < n_roots || leader < n_roots { Attr::None } else { attrs[leader] };
+      }
+    }
     let sources: Vec<usize> = (0..o.n_specs).filter(|i| kinds[*i].has_source()).collect();
     let mut edges = vec![];
     let mut min_src_pos = 0;
@@ -353,6 +369,14 @@ impl World {
     } else {
       None
     };
+    // the header's target is an attribute-less import (proviso)
+    let types_header = types_header.filter(|(_, j)| {
+      let mut f = *j;
+      for _ in 0..o.n_specs + 1 {
+        if kinds[f] == Kind::Redirect { f = redirect_to[f]; } else { break; }
+      }
+      attrs[*j] == Attr::None && attrs[f] == Attr::None
+    });
     World {
       remote,
       kinds,
